@@ -396,11 +396,12 @@ class Unit:
         if item is None:
             raise ExtractError("lost anchor: item `%s` not found (or ambiguous) in %s" % (" ".join(reg.path), reg.file))
         code1 = [Tok(t.kind, t.text, t.line, t.sp) for t in toks[item.start:item.end]]
+        ctx = {"file_toks": toks}
         for r in reg.rules:
-            code1, cnt = rewrites.apply(r, code1)
+            code1, cnt = rewrites.apply(r, code1, ctx)
             reg.rewrites_applied[r] = cnt
             # the template may show either the original or the rewritten form
-            ttoks, _ = rewrites.apply(r, ttoks)
+            ttoks, _ = rewrites.apply(r, ttoks, ctx)
         # attributes in the template before the item keyword are annotations (the source's own
         # attributes are outside the extracted range: derives are re-stated by the template)
         lead = []
